@@ -667,7 +667,9 @@ impl RefTerm {
                 } else {
                     self.scroll_up(self.row, end, pv(n, 1), ex);
                 }
-                ex.col = ColCmp::Exact;
+                // C06 does not say what IL/DL do to the column (avt keeps it, xterm
+                // returns to the left margin): adopted
+                ex.col = ColCmp::Adopt;
             }
             Decstbm(t, b) => {
                 let t = pv(t, 1);
